@@ -11,6 +11,8 @@ package main
 // phases:  replay  - deterministic single-threaded pool scenarios (ReplayCase)
 //          h1      - N callers x mixed requests on HTTP/1.1 keep-alive, limits in {1,2,5},
 //                    Clone + CloseIdleConnections concurrently, snapshot sampler (SnapCase)
+//          wire    - HTTP/1.1 keep-alive against a raw TCP origin that watches the wire for
+//                    overlapping requests; caller-side exclusive-use / serial-number oracles
 //          h2      - multiplexed HTTP/2 streams, out-of-order answers (DemuxCase)
 //          h3      - HTTP/3 streams on loopback UDP, and Alt-Svc upgrade h2 -> h3
 
@@ -62,6 +64,7 @@ var phases = map[string]func(cr *childResult, seed uint64, quick bool){
 	"h1":     phaseH1,
 	"h2":     phaseH2,
 	"h3":     phaseH3,
+	"wire":   phaseWire,
 }
 
 func main() {
@@ -98,7 +101,7 @@ func runC09(r *hk.Run) {
 		return
 	}
 	os.MkdirAll(r.OutDir, 0o755)
-	for _, ph := range []string{"replay", "h1", "h2", "h3"} {
+	for _, ph := range []string{"replay", "h1", "wire", "h2", "h3"} {
 		out := fmt.Sprintf("%s/child_%s.json", r.OutDir, ph)
 		os.Remove(out)
 		cmd := exec.Command(exe, "child", ph, fmt.Sprint(r.Seed), r.Tier, out)
